@@ -118,6 +118,7 @@ where
         infinite_source: false,
         horizon: 0,
         no_retire_check: false,
+        warmup: vec![],
         horizon_delta: 0,
         prefix_spec: false,
         sync_check: false,
@@ -354,6 +355,7 @@ pub fn generic_subjects(tagsets: &[InTags]) -> Vec<Subject> {
                 infinite_source: false,
                 horizon: 0,
                 no_retire_check: false,
+                warmup: vec![],
                 horizon_delta: 0,
                 prefix_spec: false,
                 sync_check: false,
@@ -400,6 +402,7 @@ pub fn generic_subjects(tagsets: &[InTags]) -> Vec<Subject> {
                 infinite_source: false,
                 horizon: 0,
                 no_retire_check: false,
+                warmup: vec![],
                 horizon_delta: 0,
                 prefix_spec: false,
                 sync_check: false,
@@ -435,6 +438,7 @@ pub fn sink_subjects() -> Vec<Subject> {
             infinite_source: false,
             horizon: 0,
             no_retire_check: false,
+            warmup: vec![],
             horizon_delta: 0,
             prefix_spec: false,
             sync_check: false,
@@ -462,6 +466,7 @@ pub fn sink_subjects() -> Vec<Subject> {
             infinite_source: false,
             horizon: 0,
             no_retire_check: false,
+            warmup: vec![],
             horizon_delta: 0,
             prefix_spec: false,
             sync_check: false,
@@ -505,6 +510,10 @@ pub fn all_subjects(prop: &str, thorough: bool) -> Vec<Subject> {
     }
     let mut v = generic_subjects(&tagsets);
     v.extend(crate::subjects_native::native_subjects(prop));
+    if prop == "C12" {
+        // The vector source adds marker tags.
+        v.extend(crate::subjects_src::source_subjects().into_iter().filter(|s| s.block == "VectorSource"));
+    }
     if prop == "C09" {
         v.extend(sink_subjects());
         v.extend(crate::subjects_native::endless_sources());
